@@ -67,6 +67,20 @@ def run(task):
                 if msg:
                     res["violations"].append({"msg": msg + f" (backend {backend})",
                                               "case": A.case_dict(spec, recipe, backend, "soft")})
+            k = len(res["state_set"])
+            if k % 4 == 0:
+                wrec = {"k": "pos", "de": 0.35} if recipe["k"] != "pos" else {"k": "comb", "a": 1.0, "b": 1.0, "de": 1.0}
+                warm = {"recipe": wrec, "how": A.WARM_KINDS[(k // 4) % len(A.WARM_KINDS)]}
+                be = "cbc" if A.cbc_available() else "glpk_noimport"
+                obs = A.eval_case(spec, recipe, be, "soft", warm=warm)
+                res["evaluations"] += 1
+                res["transitions"] += 2
+                if obs["ok"]:
+                    res["traces"] += 1
+                    msg = judge(spec, obs, copt, popt)
+                    if msg:
+                        res["violations"].append({"msg": msg + f" [continuum reached by {warm['how']}() after an earlier alignment]",
+                                                  "case": dict(A.case_dict(spec, recipe, be, "soft"), warm=warm)})
             if len(res["samples"]) < 2 and copt < popt * 0.95:
                 res["samples"].append({"continuum": spec, "dissimilarity": recipe, "cover_optimum": copt,
                                        "partition_optimum": popt})
@@ -76,6 +90,6 @@ def run(task):
 def replay(case):
     copt = optimum(case["spec"], case["recipe"], cover=True)
     popt = optimum(case["spec"], case["recipe"], cover=False)
-    obs = A.eval_case(case["spec"], case["recipe"], case["backend"], "soft")
+    obs = A.eval_case(case["spec"], case["recipe"], case["backend"], "soft", warm=case.get("warm"))
     msg = judge(case["spec"], obs, copt, popt)
     return [{"msg": msg, "case": case}] if msg else []
